@@ -27,7 +27,7 @@ CHECK = {
              "is missing and the gradients of the fit samples are not constant. Distinct = distinct serialised cases (64-bit hash)."),
     "assumptions": ["the harness-side brute force (long double, two-pass) and the generated data_spec_t as reference for feature values / missing masks are correct",
                     "feature magnitudes are kept <= 300: the one-pass moment formulas of hinge/affine lose precision when |offset|/spread >> 1e6; such inputs are covered only through the magnitude-scaled tolerance",
-                    "affine on a feature that is constant (or never given) among the fit samples: singular normal equations; both skipping the feature and fitting a constant are accepted (DESIGN.md 4.3); same for dstep on a feature without any labelling",
+                    "affine on a feature that is constant (or never given) among the fit samples: singular normal equations; both skipping the feature and fitting the best constant are accepted (DESIGN.md 4.3), any other value is classified as the finding C10/affine/fit/constant-feature-noise-fit; dstep on a feature without any labelling: skipping it or scoring the zero predictor are both accepted",
                     "ties between features/thresholds: only the optimal value is compared; depth-1 tree vs stump predictions are compared only when both chose the same split",
                     "the per-group scale vector has one entry per table (stump, tables, tree leaves) or one entry (affine, hinge), which equals split().groups() except for trees with several outputs"],
     "technique": "property-based testing (rapidcheck) against a brute-force search over the hypothesis class and metamorphic relations (add / scale / merge / list independence); forked probes keep crash mechanisms of known findings from killing the run",
